@@ -281,16 +281,18 @@ type Sym struct {
 	names map[ssa.Value]string // names given by the rule
 	// Expand: static in-module callees whose boolean result is expanded into
 	// the callee's own path conditions (loop-free callees only).
-	Expand  bool
+	Expand bool
 	// ExpandReturns: in decision tables an exit that returns the result of a
 	// loop-free helper of the module is replaced by the helper's own exits.
 	ExpandReturns bool
-	ord     map[*ssa.Function]map[ssa.Value]string
-	stored  map[*ssa.Function]map[string]bool
-	loops   map[*ssa.Function]map[*ssa.BasicBlock]map[*ssa.BasicBlock]bool
-	loadOrd map[*ssa.Function]map[*ssa.UnOp]int
-	keyMemo map[symKey]string
-	busy    map[symKey]bool
+	// originStop: callees Origins does not read through (the rule names them itself)
+	originStop func(*ssa.Function) bool
+	ord        map[*ssa.Function]map[ssa.Value]string
+	stored     map[*ssa.Function]map[string]bool
+	loops      map[*ssa.Function]map[*ssa.BasicBlock]map[*ssa.BasicBlock]bool
+	loadOrd    map[*ssa.Function]map[*ssa.UnOp]int
+	keyMemo    map[symKey]string
+	busy       map[symKey]bool
 }
 
 type symKey struct {
@@ -1952,4 +1954,73 @@ func pcEvalFree(f *pcF, val func(*pcAtom) (bool, bool)) (res bool, ok bool) {
 		}
 	}
 	return res, true
+}
+
+// origin of a value, read through loop-free helpers of the module: for
+// v = helper(args)[i] the values the helper returns at position i (constants
+// such as the nil of an error exit left out), with the helper's parameters
+// followed back to the arguments.
+type originRef struct {
+	v   ssa.Value
+	ctx *symCtx
+}
+
+func (s *Sym) Origins(v ssa.Value, ctx *symCtx, depth int) []originRef {
+	v = s.Resolve(v, ctx)
+	if _, isParam := v.(*ssa.Parameter); isParam {
+		// resolved into the caller's frame
+		for c := ctx; c != nil; c = c.parent {
+			if c.call != nil && c.call.Parent() == valueParent(v) {
+				ctx = c.parent
+			}
+		}
+	}
+	if depth > 3 {
+		return []originRef{{v, ctx}}
+	}
+	var call *ssa.Call
+	idx := 0
+	switch x := v.(type) {
+	case *ssa.Call:
+		call = x
+	case *ssa.Extract:
+		if c, ok := x.Tuple.(*ssa.Call); ok {
+			call, idx = c, x.Index
+		}
+	}
+	if call == nil {
+		return []originRef{{v, ctx}}
+	}
+	g := call.Call.StaticCallee()
+	if g == nil || g.Blocks == nil || len(ssaLoops(g)) > 0 || !strings.HasPrefix(pkgPathOf(g), modPath) || idx >= g.Signature.Results().Len() ||
+		(s.originStop != nil && s.originStop(g)) {
+		return []originRef{{v, ctx}}
+	}
+	nctx := &symCtx{call: call, parent: ctx}
+	var out []originRef
+	for _, b := range g.Blocks {
+		ret, ok := b.Instrs[len(b.Instrs)-1].(*ssa.Return)
+		if !ok || b == g.Recover || len(ret.Results) <= idx {
+			continue
+		}
+		rv := unspill(ret.Results[idx])
+		if _, isConst := rv.(*ssa.Const); isConst {
+			continue
+		}
+		out = append(out, s.Origins(rv, nctx, depth+1)...)
+	}
+	if len(out) == 0 {
+		return []originRef{{v, ctx}}
+	}
+	return out
+}
+
+func valueParent(v ssa.Value) *ssa.Function {
+	switch x := v.(type) {
+	case *ssa.Parameter:
+		return x.Parent()
+	case ssa.Instruction:
+		return x.Parent()
+	}
+	return nil
 }
